@@ -17,6 +17,7 @@ longer occurs exactly once are counted as stale (the source moved on) and
 reported in the evidence; if more than half are stale the sweep fails closed.
 """
 import ast
+import re
 import glob
 import importlib
 import json
@@ -264,7 +265,13 @@ def _seed_overlays(pid, root):
             os.makedirs(os.path.join(tmp, "dataiter"))
             for f in glob.glob(os.path.join(root, "dataiter", "*.py")):
                 shutil.copy(f, os.path.join(tmp, "dataiter"))
-            r = subprocess.run(["patch", "-p1", "-s", "-d", tmp, "-i", patch], capture_output=True, text=True)
+            # only the package's own modules are analysed: drop hunks for doc/, tests, ...
+            text_ = open(patch, encoding="utf-8").read()
+            parts = re.split(r"(?m)^(?=diff --git )", text_)
+            kept = "".join(p_ for p_ in parts if re.match(r"diff --git a/dataiter/[A-Za-z_]+\.py ", p_))
+            fpatch = os.path.join(tmp, "filtered.diff")
+            open(fpatch, "w", encoding="utf-8").write(kept or text_)
+            r = subprocess.run(["patch", "-p1", "-s", "-d", tmp, "-i", fpatch], capture_output=True, text=True)
             if r.returncode != 0:
                 out.append((f"seed:{meta['seed']}", None, "stale"))
                 continue
@@ -286,15 +293,22 @@ def _refactor_overlays(root):
     out = []
     here = os.path.dirname(os.path.dirname(os.path.abspath(__file__)))
     for patch in sorted(glob.glob(os.path.join(here, "refactors", "*", "patch.diff")) +
-                        glob.glob(os.path.join(here, "refactors_large", "*", "patch.diff"))):
-        large = os.path.basename(os.path.dirname(os.path.dirname(patch))) == "refactors_large"
-        name = ("rewrite:" if large else "refactor:") + os.path.basename(os.path.dirname(patch))
+                        glob.glob(os.path.join(here, "refactors_large", "*", "patch.diff")) +
+                        glob.glob(os.path.join(here, "additions", "*", "patch.diff"))):
+        kind = os.path.basename(os.path.dirname(os.path.dirname(patch)))
+        large = kind == "refactors_large"
+        name = {"refactors_large": "rewrite:", "additions": "addition:"}.get(kind, "refactor:") + os.path.basename(os.path.dirname(patch))
         tmp = tempfile.mkdtemp(prefix="sa-variant-")
         try:
             os.makedirs(os.path.join(tmp, "dataiter"))
             for f in glob.glob(os.path.join(root, "dataiter", "*.py")):
                 shutil.copy(f, os.path.join(tmp, "dataiter"))
-            r = subprocess.run(["patch", "-p1", "-s", "-d", tmp, "-i", patch], capture_output=True, text=True)
+            text_ = open(patch, encoding="utf-8").read()
+            parts = re.split(r"(?m)^(?=diff --git )", text_)
+            kept = "".join(p_ for p_ in parts if re.match(r"diff --git a/dataiter/[A-Za-z_]+\.py ", p_))
+            fpatch = os.path.join(tmp, "filtered.diff")
+            open(fpatch, "w", encoding="utf-8").write(kept or text_)
+            r = subprocess.run(["patch", "-p1", "-s", "-d", tmp, "-i", fpatch], capture_output=True, text=True)
             if r.returncode != 0:
                 out.append((name, None, "stale"))
                 continue
@@ -304,7 +318,8 @@ def _refactor_overlays(root):
                 src = open(f).read()
                 if src != open(os.path.join(root, rel)).read():
                     ov[rel] = src
-            out.append((name, ov, NV if large else S))
+            # additions may call an external API the operation table does not know yet: that is an honest ANALYSIS-ERROR
+            out.append((name, ov, NV if (large or kind == "additions") else S))
         finally:
             shutil.rmtree(tmp, ignore_errors=True)
     return out
